@@ -119,11 +119,18 @@ impl WhereClauseBuilder {
 
     pub fn build(self, f: impl Fn(&Type) -> TokenStream) -> TokenStream {
         let mut ws = Vec::new();
+        let mut done: Vec<Type> = Vec::new();
         for ty in &self.types {
             let ty = &match &self.self_ty {
                 Some(to) => crate::syn_utils::expand_self(ty, to),
                 None => ty.clone(),
             };
+            // The same type twice (two fields of one type) would give the same predicate twice: for a type with a
+            // higher-ranked lifetime (`fn(&T)`, `Rc<dyn Fn(&T)>`) rustc cannot choose between the two.
+            if done.contains(ty) {
+                continue;
+            }
+            done.push(ty.clone());
             // `A + B: Trait` and `&'a A + B` are not well-formed, `(A + B): Trait` and `&'a (A + B)` are.
             let ty = match ty {
                 Type::TraitObject(t) if (t.bounds.len() > 1 || t.bounds.trailing_punct()) => syn::parse_quote!((#ty)),
